@@ -29,6 +29,14 @@ unsafe extern "C" {
 const PR_SET_PDEATHSIG: c_int = 1;
 const SIGKILL: c_ulong = 9;
 
+/// Turn address-space randomisation off for the calling process image (survives exec).
+pub fn no_aslr() {
+    // SAFETY: personality(2) only changes a per-process flag.
+    unsafe {
+        personality(ADDR_NO_RANDOMIZE);
+    }
+}
+
 /// Colour mode of a group (part of "the same command": held fixed inside one comparison).
 #[derive(Clone, Copy, Debug, PartialEq, Eq, PartialOrd, Ord)]
 pub enum Colour {
@@ -220,6 +228,10 @@ pub fn launch_program(
     if plan.env_pad > 0 {
         cmd.env("GRAMSIM_PAD", "p".repeat(plan.env_pad as usize));
     }
+    // The clock and the pid are always the simulator's, never the machine's.
+    cmd.env("GRAMSIM_CLOCK", plan.clock_base.to_string());
+    cmd.env("GRAMSIM_CLOCK_STEP", plan.clock_step_ns.to_string());
+    cmd.env("GRAMSIM_PID", plan.pid.to_string());
     let mem_cap = env.mem_cap;
     // SAFETY: only async-signal-safe calls (personality, prctl, setrlimit) between fork and exec.
     unsafe {
